@@ -604,6 +604,41 @@ def spec_mutants():
 
 # ------------------------------------------------------------------------------ the group
 def run(tier, seed):
+    try:
+        return _run(tier, seed)
+    except ToolError:
+        raise
+    except Exception:      # a failure of this machinery must never look like a verdict
+        import traceback
+        raise ToolError("dur group: unexpected failure of the harness driver:\n" + traceback.format_exc()[-3000:])
+
+
+def replay(path):
+    """re-executes the operation list of a replay file (all crash points, all image kinds) and
+    returns the violations found now; prints one line per violated image"""
+    rp = json.load(open(path))
+    cfg = dict(TIERS["quick"], rand_kills_per_run=0)
+    d = scratch("durreplay")
+    try:
+        r = Run(rp["b"], rp["abstract_ops"], rp["seed"], bulk=rp.get("bulk", False))
+        with ThreadPoolExecutor(max_workers=cfg["jobs"]) as pool:
+            evs, st = do_run(r, d, cfg, rp["seed"], pool)
+        tf = os.path.join(d, "trace.replay")
+        with open(tf, "w") as f:
+            for e in evs:
+                f.write(json.dumps(e) + "\n")
+        viols, verdict, _ = validate(tf)
+        for v in viols:
+            e = evs[v["l"] - 1]
+            adv = " (advisory: stricter file-system contract)" if e.get("variant", "").startswith("pl-strict") else ""
+            print(f"{','.join(v['props'])}: {v['e']}{adv}; crash point {e.get('k')} [{e.get('note', '')}]")
+        print(f"{st['images']} images, {len(viols)} judged bad")
+        return viols
+    finally:
+        shutil.rmtree(d, ignore_errors=True)
+
+
+def _run(tier, seed):
     cfg = dict(TIERS[tier])
     t0 = time.time()
     res = {"group": "dur", "tier": tier, "seed": seed}
@@ -662,7 +697,9 @@ def run(tier, seed):
             os.makedirs(replays, exist_ok=True)
             path = os.path.join(replays, f"dur-b{r.b}.json")
             bad_lines = sorted({v["l"] for v in viols})
-            json.dump({"group": "dur", "seed": seed, "abstract_ops": r.aops, "concrete_ops": r.cops,
+            json.dump({"group": "dur", "seed": seed, "b": r.b, "bulk": r.bulk, "abstract_ops": r.aops,
+                       "concrete_ops": r.cops if not r.bulk else "(bulk: regenerate from abstract_ops)",
+                       "how": "python3 tools/durreplay.py <this file>",
                        "violations": viols,
                        "images": [dict(evs[l - 1], line=l) for l in bad_lines[:20]]}, open(path, "w"))
             for v in viols:
